@@ -39,6 +39,9 @@ package filesystem
 //@ func (store *KeyStore) backupHistoricalKeyFile(filename string) (err error)
 //@   props C08
 //@   ensures copy-only-when-link-fails: called(Storage.Copy) ==> ret(Storage.Link)[0] != nil
+//@   ensures no-backup-only-if-the-file-is-absent: err == nil ==> (called(os.IsNotExist) && ret(os.IsNotExist)[0] && !called(Storage.Link)) || (called(Storage.Link) && (ret(Storage.Link)[0] == nil || (called(Storage.Copy) && ret(Storage.Copy)[0] == nil)))
+//@   at call os.IsNotExist : assert arg[0] == ret(Storage.Stat)[1]
+//@   at call Storage.Stat : assert arg[0] == filename
 //@   at call Storage.Link : assert arg[0] == filename && arg[1] == ret(getNewHistoricalFileName)[0]
 //@   at call Storage.Copy : assert arg[0] == filename && arg[1] == ret(getNewHistoricalFileName)[0]
 //@   at call getNewHistoricalFileName : assert arg[0] == filename
